@@ -247,7 +247,13 @@ pub enum CodecCase {
     /// encode RegisteredClaims, inspect the wire form with a generic JSON parser, decode back
     RegRoundtrip { claims: RegSpec },
     /// a foreign issuer's JSON text decoded as RegisteredClaims
-    RegForeign { json: String },
+    RegForeign {
+        json: String,
+        /// the object holds only well-formed registered members (no duplicates) plus unknown members:
+        /// decoding must succeed ("decoding ignores unknown members and member order")
+        #[serde(default)]
+        must_accept: bool,
+    },
     /// Json<Value> as payload and footer is transparent over serde_json
     JsonTransparent { value: serde_json::Value },
 }
